@@ -312,10 +312,331 @@ Proof.
   unfold open_static_file, new_static_file. cbn [pick_sibling fst]. rewrite !Hopen, !Hw. reflexivity.
 Qed.
 
-Theorem prop_C50_of_model : forall i, dec_input i <> None -> prop_C50 i (run_C50 i) = true.
+(* ---------- pre-compressed siblings ---------- *)
+Lemma split_nosep c b : ~ In c b -> split_byte c b = [b].
 Proof.
-  intros i Hd. unfold prop_C50, run_C50. destruct (dec_input i) as [x|]; [|contradiction].
-  unfold enc_resp. apply prop_resp_of_model.
+  induction b as [|x r IH]; intros H; [reflexivity|]. cbn [split_byte]. rewrite IH by (intros Hc; apply H; right; exact Hc).
+  destruct (x =? c) eqn:E; [apply Z.eqb_eq in E; exfalso; apply H; left; exact E|reflexivity].
+Qed.
+Lemma split_app_nosep c b : ~ In c b -> forall a,
+  split_byte c (a ++ b) = removelast (split_byte c a) ++ [last (split_byte c a) [] ++ b].
+Proof.
+  intros Hb. induction a as [|x a IH]; [cbn; apply split_nosep; exact Hb|].
+  cbn [app split_byte]. rewrite IH. pose proof (split_byte_nonempty c a) as Hne.
+  destruct (split_byte c a) as [|cur rest]; [congruence|].
+  destruct rest as [|r1 rs].
+  - cbn [removelast last app]. destruct (x =? c); reflexivity.
+  - change (removelast (cur :: r1 :: rs)) with (cur :: removelast (r1 :: rs)).
+    change (last (cur :: r1 :: rs) []) with (last (r1 :: rs) []). cbn [app].
+    destruct (x =? c).
+    + change (removelast ([] :: cur :: r1 :: rs)) with ([] :: cur :: removelast (r1 :: rs)).
+      change (last ([] :: cur :: r1 :: rs) []) with (last (r1 :: rs) []). reflexivity.
+    + change (removelast ((x :: cur) :: r1 :: rs)) with ((x :: cur) :: removelast (r1 :: rs)).
+      change (last ((x :: cur) :: r1 :: rs) []) with (last (r1 :: rs) []). reflexivity.
+Qed.
+Lemma last_app_ne {A} (l l' : list A) d : l' <> [] -> last (l ++ l') d = last l' d.
+Proof.
+  intros H. induction l as [|x l IH]; [reflexivity|]. cbn [app]. rewrite <- IH.
+  destruct (l ++ l') eqn:E; [apply app_eq_nil in E; destruct E; contradiction|reflexivity].
+Qed.
+
+(* an element that path.Clean keeps *)
+Definition ord_elem (e : elem) : bool := negb (bytes_eqb e []) && negb (bytes_eqb e DOT) && negb (bytes_eqb e DOTDOT).
+Lemma plain_ord e : plain_elem e = true -> ord_elem e = true.
+Proof. unfold plain_elem, ord_elem. rewrite !andb_true_iff. tauto. Qed.
+Lemma clean_from_ord es : forall stk, forallb ord_elem es = true -> clean_from stk es = rev es ++ stk.
+Proof.
+  induction es as [|e r IH]; intros stk H; [reflexivity|]. simpl in H. apply andb_true_iff in H. destruct H as [He Hr].
+  cbn [clean_from fold_left]. change (fold_left clean_step r (clean_step stk e)) with (clean_from (clean_step stk e) r).
+  unfold ord_elem in He. rewrite !andb_true_iff, !negb_true_iff in He. destruct He as [[H1 H2] H3].
+  unfold clean_step. rewrite H1, H2, H3. cbn [orb]. rewrite IH by exact Hr. cbn [rev]. rewrite <- app_assoc. reflexivity.
+Qed.
+Lemma clean_abs_ord es : forallb ord_elem es = true -> clean_abs es = es.
+Proof. intros H. unfold clean_abs. rewrite clean_from_ord by exact H. rewrite app_nil_r. apply rev_involutive. Qed.
+
+(* "l.ext" is an ordinary element when ext is non-empty and does not end with a dot *)
+Definition good_ext (ext : bytes) : bool :=
+  negb (bytes_eqb ext []) && negb (last ext 0 =? 46) && negb (existsb (Z.eqb 0) ext) && negb (existsb (Z.eqb SLASH) ext).
+Lemma ext_ord l ext : good_ext ext = true -> ord_elem (l ++ 46 :: ext) = true.
+Proof.
+  unfold good_ext. rewrite !andb_true_iff, !negb_true_iff. intros [[[Hne Hl] _] _].
+  assert (Hne' : ext <> []) by (intros E0; subst; discriminate).
+  unfold ord_elem. rewrite !andb_true_iff, !negb_true_iff. repeat split.
+  - destruct l; reflexivity.
+  - destruct (bytes_eqb (l ++ 46 :: ext) DOT) eqn:E; [|reflexivity]. apply bytes_eqb_eq in E.
+    apply (f_equal (@length Z)) in E. rewrite app_length in E. destruct ext; [congruence|]. cbn in E. lia.
+  - destruct (bytes_eqb (l ++ 46 :: ext) DOTDOT) eqn:E; [|reflexivity]. apply bytes_eqb_eq in E. exfalso.
+    assert (Hlast : last (l ++ 46 :: ext) 0 = last ext 0).
+    { rewrite last_app_ne by discriminate. destruct ext; [congruence|reflexivity]. }
+    rewrite E in Hlast. cbn in Hlast. apply Z.eqb_neq in Hl. congruence.
+Qed.
+Lemma accept_list_good ae : Forall (fun c => good_ext (snd c) = true /\ ((fst c = GZIP /\ snd c = GZ /\ has_token ae GZIP = true) \/ (fst c = BR /\ snd c = BR /\ has_token ae BR = true))) (accept_list ae).
+Proof.
+  assert (HG : good_ext GZ = true) by reflexivity. assert (HB : good_ext BR = true) by reflexivity.
+  unfold accept_list. destruct (has_token ae GZIP) eqn:G; destruct (has_token ae BR) eqn:B; cbn [app].
+  - apply Forall_cons; [split; [exact HG|left; auto]|]. apply Forall_cons; [split; [exact HB|right; auto]|]. constructor.
+  - apply Forall_cons; [split; [exact HG|left; auto]|]. constructor.
+  - apply Forall_cons; [split; [exact HB|right; auto]|]. constructor.
+  - constructor.
+Qed.
+
+(* the candidate name "name.ext": its cleaned path ends with an element that has the suffix ".ext" *)
+Lemma cand_clean name ext : good_ext ext = true ->
+  exists pre l, clean_name (name ++ 46 :: ext) = pre ++ [l ++ 46 :: ext].
+Proof.
+  intros Hg. unfold clean_name.
+  assert (Hns : ~ In SLASH (46 :: ext)).
+  { unfold good_ext in Hg. rewrite !andb_true_iff, !negb_true_iff in Hg. destruct Hg as [_ Hs].
+    intros [H|H]; [discriminate|]. assert (existsb (Z.eqb SLASH) ext = true); [|congruence].
+    apply existsb_exists. exists SLASH. split; [exact H|apply Z.eqb_refl]. }
+  rewrite (split_app_nosep SLASH (46 :: ext) Hns name).
+  set (S := split_byte SLASH name). unfold clean_abs, clean_from. rewrite fold_left_app. cbn [fold_left].
+  pose proof (ext_ord (last S []) ext Hg) as Ho. unfold ord_elem in Ho. rewrite !andb_true_iff, !negb_true_iff in Ho.
+  destruct Ho as [[H1 H2] H3]. unfold clean_step at 1. rewrite H1, H2, H3. cbn [orb rev].
+  exists (rev (fold_left clean_step (removelast S) [])), (last S []). reflexivity.
+Qed.
+
+
+Lemma pick_sibling_cases fs root name : forall cands,
+  let fe := pick_sibling fs root name cands in
+  (fe = (name, [])) \/ (exists ext, In (snd fe, ext) cands /\ fst fe = name ++ 46 :: ext).
+Proof.
+  induction cands as [|[enc ext] r IH]; cbn [pick_sibling]; [left; reflexivity|].
+  destruct (stat_ok fs root (name ++ 46 :: ext)).
+  - right. exists ext. cbn [fst snd]. split; [left; reflexivity|reflexivity].
+  - destruct IH as [IH|[ext' [H1 H2]]]; [left; exact IH|right; exists ext'; split; [right; exact H1|exact H2]].
+Qed.
+
+Lemma is_suffix_app l s : is_suffix s (l ++ s) = true.
+Proof. unfold is_suffix. rewrite rev_app_distr. apply is_prefix_spec. exists (rev l). reflexivity. Qed.
+
+(* a file opened through a candidate name "nm.ext" is stored under the root in an element ending with ".ext" *)
+Lemma nsf_enc fs root nm encs c enc :
+  new_static_file fs root nm encs = (RFile c, enc) -> enc <> [] ->
+  Forall (fun ce => good_ext (snd ce) = true) encs ->
+  exists ext pre l, In (enc, ext) encs /\ fs_get fs (root ++ pre ++ [l ++ 46 :: ext]) = Some (NFile c).
+Proof.
+  intros H Hne Hg. unfold new_static_file in H.
+  pose proof (pick_sibling_cases fs root nm encs) as Hc. cbv zeta in Hc.
+  destruct (pick_sibling fs root nm encs) as [fname e]. inversion H; subst e. clear H.
+  destruct Hc as [Hc|[ext [Hin Hf]]]; [inversion Hc; subst; congruence|]. cbn [fst snd] in *. subst fname.
+  rewrite Forall_forall in Hg. pose proof (Hg _ Hin) as Hge. cbn [snd] in Hge.
+  destruct (cand_clean nm ext Hge) as [pre [l Hcl]].
+  rename H1 into Ho. unfold dir_open, opened_path in Ho. rewrite Hcl in Ho.
+  destruct (has_nul (pre ++ [l ++ 46 :: ext])); [discriminate|].
+  apply walk_file in Ho. cbn [app] in Ho. exists ext, pre, l. split; [exact Hin|exact Ho].
+Qed.
+
+Lemma served_suffix_intro fs root pre l sufx c (is_get : bool) (body clen : bytes) :
+  fs_get fs (root ++ pre ++ [l ++ sufx]) = Some (NFile c) ->
+  clen = dec_of_Z (blen c) -> (if is_get then body = c else body = []) ->
+  served_suffix fs root is_get body clen sufx = true.
+Proof.
+  intros Hget Hcl Hb.
+  assert (Hne : root ++ pre ++ [l ++ sufx] <> []).
+  { intros E0. apply app_eq_nil in E0. destruct E0 as [_ E0]. apply app_eq_nil in E0. destruct E0; discriminate. }
+  rewrite fs_get_find in Hget by exact Hne. apply fs_find_in in Hget.
+  unfold served_suffix. apply existsb_exists. exists (root ++ pre ++ [l ++ sufx], NFile c). split; [exact Hget|].
+  rewrite path_prefix_app. rewrite app_assoc, last_last. rewrite is_suffix_app. subst clen. rewrite bytes_eqb_refl'.
+  cbn [andb]. destruct is_get; subst body; apply bytes_eqb_refl'.
+Qed.
+
+Theorem prop_enc_of_model : forall x,
+  let r := serve_input x in prop_enc x (r_status r) (r_body r) (r_clen r) (r_cenc r) = true.
+Proof.
+  intros x. unfold serve_input, prop_enc. destruct x as [meth name ae root def compress fs route].
+  cbn [i_fs i_root i_meth i_name i_ae i_def i_compress].
+  unfold serve.
+  destruct (negb (bytes_eqb meth GET) && negb (bytes_eqb meth HEAD)) eqn:Em; [reflexivity|].
+  set (encs := if compress then accept_list ae else []).
+  assert (Hencs : Forall (fun c => good_ext (snd c) = true /\ ((fst c = GZIP /\ snd c = GZ /\ has_token ae GZIP = true) \/
+                        (fst c = BR /\ snd c = BR /\ has_token ae BR = true))) encs /\ (encs <> [] -> compress = true)).
+  { subst encs. destruct compress; [split; [apply accept_list_good|reflexivity]|split; [constructor|congruence]]. }
+  destruct Hencs as [Hencs Hcomp].
+  assert (Hgood : Forall (fun ce => good_ext (snd ce) = true) encs).
+  { eapply Forall_impl; [|exact Hencs]. intros a [H _]. exact H. }
+  assert (Hopen : exists nm, open_static_file fs root name def encs = new_static_file fs root nm encs).
+  { unfold open_static_file. destruct (fst (new_static_file fs root name encs)); try (exists name; reflexivity);
+      destruct def; try (exists name; reflexivity); eexists; reflexivity. }
+  destruct Hopen as [nm Hopen]. rewrite Hopen.
+  destruct (new_static_file fs root nm encs) as [res enc] eqn:EN.
+  destruct res; cbn [r_status r_body r_clen r_cenc]; try reflexivity.
+  destruct (bytes_eqb enc []) eqn:Ee; [reflexivity|].
+  assert (Hne : enc <> []) by (intros E0; subst; discriminate).
+  destruct (nsf_enc fs root nm encs c enc EN Hne Hgood) as [ext [pre [l [Hin Hget]]]].
+  rewrite Forall_forall in Hencs. destruct (Hencs _ Hin) as [_ Hk]. cbn [fst snd] in Hk.
+  assert (Hc : compress = true) by (apply Hcomp; intros E0; rewrite E0 in Hin; exact Hin).
+  rewrite Hc. cbn [Z.eqb Pos.eqb andb].
+  assert (Hm : meth = GET \/ meth = HEAD).
+  { apply andb_false_iff in Em. destruct Em as [Em|Em]; apply negb_false_iff in Em; apply bytes_eqb_eq in Em; auto. }
+  assert (Hbody : if bytes_eqb meth GET then (if bytes_eqb meth HEAD then [] else c) = c
+                  else (if bytes_eqb meth HEAD then [] else c) = []).
+  { destruct Hm; subst meth; reflexivity. }
+  destruct Hk as [[He [Hx Ht]]|[He [Hx Ht]]]; subst enc ext; rewrite Ht.
+  - change (bytes_eqb GZIP GZIP) with true. cbn [andb].
+    apply orb_true_iff. left. apply (served_suffix_intro fs root pre l DOTGZ c _ _ _ Hget eq_refl Hbody).
+  - change (bytes_eqb BR GZIP) with false. change (bytes_eqb BR BR) with true. cbn [andb orb].
+    apply (served_suffix_intro fs root pre l DOTBR c _ _ _ Hget eq_refl Hbody).
+Qed.
+
+
+(* ---------- plain paths with pre-compressed lookup ---------- *)
+Lemma forallb_removelast {A} (P : A -> bool) l : forallb P l = true -> forallb P (removelast l) = true.
+Proof.
+  induction l as [|x l IH]; [reflexivity|]. intros H. simpl in H. apply andb_true_iff in H. destruct H as [Hx Hl].
+  destruct l as [|y l]; [reflexivity|]. change (removelast (x :: y :: l)) with (x :: removelast (y :: l)).
+  cbn [forallb]. rewrite Hx. apply IH. exact Hl.
+Qed.
+Lemma forallb_last {A} (P : A -> bool) l d : forallb P l = true -> P d = true -> P (last l d) = true.
+Proof.
+  induction l as [|x l IH]; intros H Hd; [exact Hd|]. simpl in H. apply andb_true_iff in H. destruct H as [Hx Hl].
+  destruct l as [|y l]; [exact Hx|]. change (last (x :: y :: l) d) with (last (y :: l) d). apply IH; assumption.
+Qed.
+Definition nonul (e : elem) : bool := negb (existsb (Z.eqb 0) e).
+Lemma has_nul_forallb es : has_nul es = negb (forallb nonul es).
+Proof.
+  unfold has_nul, nonul. induction es as [|e r IH]; [reflexivity|]. cbn [existsb forallb]. rewrite IH.
+  destruct (existsb (Z.eqb 0) e); reflexivity.
+Qed.
+Lemma plain_nonul e : plain_elem e = true -> nonul e = true.
+Proof. unfold plain_elem, nonul. rewrite !andb_true_iff. tauto. Qed.
+Lemma forallb_impl {A} (P Q : A -> bool) l : (forall x, P x = true -> Q x = true) -> forallb P l = true -> forallb Q l = true.
+Proof. intros H. induction l as [|x l IH]; [reflexivity|]. simpl. rewrite !andb_true_iff. intros [H1 H2]. split; auto. Qed.
+
+Lemma sib_facts es ext : forallb plain_elem es = true -> good_ext ext = true ->
+  forallb ord_elem (sib es ext) = true /\ forallb nonul (sib es ext) = true.
+Proof.
+  intros Hes Hg. unfold sib. rewrite !forallb_app. cbn [forallb]. rewrite !andb_true_r. split; apply andb_true_iff; split.
+  - apply forallb_removelast. apply (forallb_impl plain_elem); [apply plain_ord|exact Hes].
+  - apply ext_ord. exact Hg.
+  - apply forallb_removelast. apply (forallb_impl plain_elem); [apply plain_nonul|exact Hes].
+  - unfold nonul. rewrite existsb_app. cbn [existsb]. change (46 =? 0) with false. cbn [orb].
+    assert (H1 : nonul (last es []) = true) by (apply forallb_last; [apply (forallb_impl plain_elem); [apply plain_nonul|exact Hes]|reflexivity]).
+    unfold nonul in H1. apply negb_true_iff in H1. rewrite H1.
+    unfold good_ext in Hg. rewrite !andb_true_iff in Hg. destruct Hg as [[_ Hn] _]. apply negb_true_iff in Hn. rewrite Hn. reflexivity.
+Qed.
+
+Lemma clean_from_app stk a b : clean_from stk (a ++ b) = clean_from (clean_from stk a) b.
+Proof. unfold clean_from. apply fold_left_app. Qed.
+
+(* the candidate "name.ext" of a plain name: both the (unconfined) Stat path and the opened path are root ++ sib *)
+Lemma plain_cand fs root name es ext : plain_path name = Some es -> forallb plain_elem root = true -> good_ext ext = true ->
+  stat_path root (name ++ 46 :: ext) = root ++ sib es ext /\
+  dir_open fs root (name ++ 46 :: ext) = walk fs [] (root ++ sib es ext) /\
+  has_nul (root ++ sib es ext) = false.
+Proof.
+  intros Hp Hr Hg. unfold plain_path in Hp.
+  destruct (split_byte SLASH name) as [|[|x xs] rest] eqn:E; try discriminate.
+  destruct (forallb plain_elem rest) eqn:Ep; [|discriminate]. inversion Hp; subst es. clear Hp.
+  destruct (sib_facts rest ext Ep Hg) as [Hord Hnn].
+  assert (Hns : ~ In SLASH (46 :: ext)).
+  { unfold good_ext in Hg. rewrite !andb_true_iff, !negb_true_iff in Hg. destruct Hg as [_ Hs].
+    intros [H|H]; [discriminate|]. assert (existsb (Z.eqb SLASH) ext = true); [|congruence].
+    apply existsb_exists. exists SLASH. split; [exact H|apply Z.eqb_refl]. }
+  assert (Hsplit : exists pre, split_byte SLASH (name ++ 46 :: ext) = pre ++ sib rest ext /\ (pre = [] \/ pre = [[]])).
+  { rewrite (split_app_nosep SLASH (46 :: ext) Hns name), E. destruct rest as [|e r].
+    - exists []. split; [reflexivity|left; reflexivity].
+    - exists [[]]. split; [|right; reflexivity]. unfold sib.
+      change (removelast ([] :: e :: r)) with ([] :: removelast (e :: r)).
+      change (last ([] :: e :: r) []) with (last (e :: r) []). reflexivity. }
+  destruct Hsplit as [pre [Hsplit Hpre]].
+  assert (Hclean : forall stk, clean_from stk (pre ++ sib rest ext) = rev (sib rest ext) ++ stk).
+  { intros stk. rewrite clean_from_app. destruct Hpre; subst pre; cbn [clean_from fold_left];
+      [|change (clean_step stk []) with stk]; apply clean_from_ord; exact Hord. }
+  assert (Hrn : has_nul (root ++ sib rest ext) = false).
+  { rewrite has_nul_forallb, forallb_app, Hnn, (forallb_impl plain_elem nonul root plain_nonul Hr). reflexivity. }
+  assert (Hsn : has_nul (sib rest ext) = false) by (rewrite has_nul_forallb, Hnn; reflexivity).
+  split; [|split; [|exact Hrn]].
+  - unfold stat_path, clean_abs. rewrite Hsplit, clean_from_app.
+    rewrite (clean_from_ord root []) by (apply (forallb_impl plain_elem); [apply plain_ord|exact Hr]).
+    rewrite Hclean, !app_nil_r, rev_app_distr, !rev_involutive. reflexivity.
+  - unfold dir_open, opened_path, clean_name, clean_abs. rewrite Hsplit, Hclean, app_nil_r, rev_involutive, Hsn. reflexivity.
+Qed.
+
+Lemma stat_ok_spec fs root name es ext : fs_closed fs = true ->
+  plain_path name = Some es -> forallb plain_elem root = true -> good_ext ext = true ->
+  stat_ok fs root (name ++ 46 :: ext) = match fs_get fs (root ++ sib es ext) with Some _ => true | None => false end.
+Proof.
+  intros Hcl Hp Hr Hg. destruct (plain_cand fs root name es ext Hp Hr Hg) as [Hsp [_ Hn]].
+  unfold stat_ok. rewrite Hsp, Hn.
+  assert (Hne : root ++ sib es ext <> []).
+  { unfold sib. intros E0. apply app_eq_nil in E0. destruct E0 as [_ E0]. apply app_eq_nil in E0. destruct E0; discriminate. }
+  destruct (fs_get fs (root ++ sib es ext)) as [n|] eqn:Eg.
+  - rewrite fs_get_find in Eg by exact Hne. change (root ++ sib es ext) with ([] ++ (root ++ sib es ext)) in Eg.
+    rewrite (walk_present fs Hcl _ [] n Hne Eg). destruct n; reflexivity.
+  - destruct (walk fs [] (root ++ sib es ext)) eqn:Ew; try reflexivity.
+    + apply walk_file in Ew. cbn [app] in Ew. congruence.
+    + apply walk_dir in Ew. cbn [app] in Ew. congruence.
+Qed.
+
+Definition pick_target (fs : fsys) (root es : list elem) (cands : list (bytes * bytes)) : list elem * bytes :=
+  match spec_pick fs root es cands with Some te => te | None => (es, []) end.
+Lemma pick_sibling_spec fs root name es : fs_closed fs = true ->
+  plain_path name = Some es -> forallb plain_elem root = true -> forall cands,
+  Forall (fun ce => good_ext (snd ce) = true) cands ->
+  snd (pick_sibling fs root name cands) = snd (pick_target fs root es cands) /\
+  dir_open fs root (fst (pick_sibling fs root name cands)) = walk fs [] (root ++ fst (pick_target fs root es cands)) /\
+  (fst (pick_target fs root es cands) = es \/ fs_get fs (root ++ fst (pick_target fs root es cands)) <> None).
+Proof.
+  intros Hcl Hp Hr. induction cands as [|[enc ext] r IH]; intros Hg.
+  - unfold pick_target. cbn [pick_sibling spec_pick fst snd]. split; [reflexivity|]. split; [|left; reflexivity].
+    apply (plain_dir_open fs root name es Hp).
+  - inversion Hg as [|? ? Hge Hgr]; subst. cbn [snd] in Hge. unfold pick_target. cbn [pick_sibling spec_pick].
+    rewrite (stat_ok_spec fs root name es ext Hcl Hp Hr Hge).
+    destruct (fs_get fs (root ++ sib es ext)) eqn:Eg.
+    + cbn [fst snd]. split; [reflexivity|]. split; [|right; rewrite Eg; discriminate].
+      apply (plain_cand fs root name es ext Hp Hr Hge).
+    + apply IH. exact Hgr.
+Qed.
+
+Theorem prop_sibling_of_model : forall x,
+  let r := serve_input x in prop_sibling x (r_status r) (r_body r) (r_clen r) (r_cenc r) = true.
+Proof.
+  intros x. unfold serve_input, prop_sibling. destruct x as [meth name ae root def compress fs route].
+  cbn [i_fs i_root i_meth i_name i_ae i_def i_compress].
+  destruct (bytes_eqb meth GET || bytes_eqb meth HEAD) eqn:Em; [|reflexivity]. cbn [negb orb].
+  destruct compress; [|reflexivity]. cbn [negb orb].
+  destruct (fs_closed fs) eqn:Ecl; [|reflexivity]. cbn [negb orb].
+  destruct (forallb plain_elem root) eqn:Er; [|reflexivity]. cbn [negb].
+  destruct (plain_path name) as [es|] eqn:Epl; [|reflexivity].
+  assert (Hgood : Forall (fun ce => good_ext (snd ce) = true) (accept_list ae)).
+  { eapply Forall_impl; [|apply accept_list_good]. intros a [H _]. exact H. }
+  destruct (pick_sibling_spec fs root name es Ecl Epl Er (accept_list ae) Hgood) as [Henc [Hopen Htgt]].
+  fold (pick_target fs root es (accept_list ae)).
+  destruct (pick_target fs root es (accept_list ae)) as [target enc]. cbn [fst snd] in *.
+  unfold serve.
+  replace (negb (bytes_eqb meth GET) && negb (bytes_eqb meth HEAD)) with false
+    by (symmetry; apply orb_true_iff in Em; destruct Em as [Em|Em]; rewrite Em; [reflexivity|apply andb_false_r]).
+  unfold open_static_file, new_static_file.
+  destruct (pick_sibling fs root name (accept_list ae)) as [fname e]. cbn [fst snd] in *. subst e. rewrite Hopen.
+  destruct (fs_get fs (root ++ target)) as [[c|]|] eqn:Eg; [|reflexivity|].
+  - assert (Hne : root ++ target <> []) by (intros E0; rewrite E0 in Eg; discriminate).
+    rewrite fs_get_find in Eg by exact Hne. change (root ++ target) with ([] ++ (root ++ target)) in Eg.
+    rewrite (walk_present fs Ecl (root ++ target) [] (NFile c) Hne Eg).
+    cbn [r_status r_body r_clen r_cenc Z.eqb Pos.eqb andb]. rewrite !bytes_eqb_refl'. cbn [andb].
+    apply orb_true_iff in Em. destruct Em as [Em|Em]; apply bytes_eqb_eq in Em; subst meth.
+    + change (bytes_eqb GET GET) with true. change (bytes_eqb GET HEAD) with false. apply bytes_eqb_refl'.
+    + change (bytes_eqb HEAD GET) with false. change (bytes_eqb HEAD HEAD) with true. reflexivity.
+  - destruct Htgt as [Htgt|Htgt]; [subst target|congruence].
+    destruct (plain_dir_open fs root name es Epl) as [_ Hes].
+    destruct def as [|d0 def']; [|reflexivity].
+    destruct (walk fs [] (root ++ es)) eqn:Ew.
+    + apply walk_file in Ew. cbn [app] in Ew. rewrite Ew in Eg. discriminate.
+    + apply walk_dir in Ew. cbn [app] in Ew. rewrite Ew in Eg. discriminate.
+    + reflexivity.
+    + exfalso. apply (walk_not_toolong fs (root ++ es) []); [|exact Ew]. rewrite forallb_app, Er, Hes. reflexivity.
+    + exfalso. apply (walk_not_invalid fs (root ++ es) [] Ew).
+Qed.
+
+(* ---------- central theorem ---------- *)
+Definition wf_C50 (i : val) : bool := match dec_input i with Some _ => true | None => false end.
+Theorem prop_C50_of_model : forall i, wf_C50 i = true -> kf_C50 i = 0 -> prop_C50 i (run_C50 i) = true.
+Proof.
+  intros i Hwf _. unfold wf_C50 in Hwf. unfold prop_C50, run_C50. destruct (dec_input i) as [x|]; [|discriminate].
+  unfold enc_resp. destruct (i_route x =? 0) eqn:Ert.
+  - destruct (counters_input x) as [ne fb]. cbv iota beta.
+    rewrite prop_resp_of_model, prop_enc_of_model, prop_sibling_of_model. reflexivity.
+  - reflexivity.
 Qed.
 
 Lemma C50_example_lemma :
@@ -323,4 +644,12 @@ Lemma C50_example_lemma :
   r_status (serve fs [[119]] GET [47; 46; 46; 47; 115] [] [] false) = 404 /\
   serve fs [[119]] GET [47; 120; 47; 46; 46; 47; 97] [] [] false
     = {| r_status := 200; r_body := [1; 2; 3]; r_clen := [51]; r_cenc := [] |}.
+Proof. vm_compute. split; reflexivity. Qed.
+
+(* the corpus case corpus/C50/basics.case "sibling-gz" (GET /a.txt, Accept-Encoding "gzip, br", lookup on) *)
+Definition corpus_sibling_gz : val :=
+  (VL [(VB [71;69;84]); (VB [47;97;46;116;120;116]); (VB [103;122;105;112;44;32;98;114]); (VL [(VB [116;109;112]); (VB [119;45;109;111;100;50]); (VB [99;53;48]); (VB [116;99;111;114;112;117;115]); (VB [119;119;119])]); (VB []); (VZ 1); (VL [(VL [(VL [(VB [116;109;112])]); (VZ 0)]); (VL [(VL [(VB [116;109;112]); (VB [119;45;109;111;100;50])]); (VZ 0)]); (VL [(VL [(VB [116;109;112]); (VB [119;45;109;111;100;50]); (VB [99;53;48])]); (VZ 0)]); (VL [(VL [(VB [116;109;112]); (VB [119;45;109;111;100;50]); (VB [99;53;48]); (VB [116;99;111;114;112;117;115])]); (VZ 0)]); (VL [(VL [(VB [116;109;112]); (VB [119;45;109;111;100;50]); (VB [99;53;48]); (VB [116;99;111;114;112;117;115]); (VB [119;119;119])]); (VZ 0)]); (VL [(VL [(VB [116;109;112]); (VB [119;45;109;111;100;50]); (VB [99;53;48]); (VB [116;99;111;114;112;117;115]); (VB [119;119;119]); (VB [97;46;116;120;116])]); (VB [104;101;108;108;111])]); (VL [(VL [(VB [116;109;112]); (VB [119;45;109;111;100;50]); (VB [99;53;48]); (VB [116;99;111;114;112;117;115]); (VB [119;119;119]); (VB [97;46;116;120;116;46;103;122])]); (VB [71;90;66;89;84;69;83])]); (VL [(VL [(VB [116;109;112]); (VB [119;45;109;111;100;50]); (VB [99;53;48]); (VB [116;99;111;114;112;117;115]); (VB [119;119;119]); (VB [115;117;98])]); (VZ 0)]); (VL [(VL [(VB [116;109;112]); (VB [119;45;109;111;100;50]); (VB [99;53;48]); (VB [116;99;111;114;112;117;115]); (VB [119;119;119]); (VB [115;117;98]); (VB [98;46;116;120;116;46;98;114])]); (VB [66;82;66;89;84;69;83])]); (VL [(VL [(VB [116;109;112]); (VB [119;45;109;111;100;50]); (VB [99;53;48]); (VB [116;99;111;114;112;117;115]); (VB [119;119;119]); (VB [115;117;98]); (VB [98;46;116;120;116])]); (VB [98;101;101])]); (VL [(VL [(VB [116;109;112]); (VB [119;45;109;111;100;50]); (VB [99;53;48]); (VB [116;99;111;114;112;117;115]); (VB [115;101;99;114;101;116;46;116;120;116])]); (VB [83;69;78;84;73;78;69;76])]); (VL [(VL [(VB [116;109;112]); (VB [119;45;109;111;100;50]); (VB [99;53;48]); (VB [116;99;111;114;112;117;115]); (VB [115;101;99;114;101;116;46;116;120;116;46;103;122])]); (VB [83;69;78;84;73;78;69;76;71;90])])]); (VZ 0)]).
+Lemma C50_wf_example_lemma :
+  wf_C50 corpus_sibling_gz = true /\
+  run_C50 corpus_sibling_gz = VL [VZ 200; VB [71;90;66;89;84;69;83]; VB [55]; VB GZIP; VL [VZ 0; VZ 0; VZ 0]].
 Proof. vm_compute. split; reflexivity. Qed.
